@@ -2928,8 +2928,12 @@ impl<'a> AstConverter<'a> {
         match token.token_type() {
             TokenType::InterpolatedString { literal, kind: _ } => {
                 if !literal.is_empty() {
-                    let mut segment = StringSegment::new(literal.as_str())
-                        .expect("unable to convert interpolated string segment");
+                    // a malformed escape sequence is an error of the code, like in a quoted string
+                    let mut segment = StringSegment::new(literal.as_str()).map_err(|_err| {
+                        ConvertError::InterpolatedString {
+                            string: token.to_string(),
+                        }
+                    })?;
 
                     if self.hold_token_data {
                         let position = self.convert_token_position(token)?;
